@@ -140,7 +140,7 @@ pub fn run_sequential(case: &Case) -> RunOutput {
     }
     match result {
         Ok((h, recorded, error)) => {
-            out.sim_micros = h.sim.now_micros().saturating_sub(h.sim.inner.cfg.epoch_micros);
+            out.sim_micros = h.sim.inner.final_sim_micros.get();
             out.violations = h.violations;
             out.stats = h.stats;
             out.ops = recorded;
